@@ -192,6 +192,13 @@ theorem subst_inert (x : String) (lv : Ast) (v : V) (b : Ast) (hl : leafLit lv =
     SameResult (Spec.run n (.let_ (.ident x) lv b)) (Spec.run m (substA x lv b)) :=
   rewrite_inert (AR.letSubst hl hx hb (by rw [Sub.erase_nil]; exact (substA_rel x hl hx b).1)) n m
 
+/-- the hypotheses of `subst_inert` are satisfiable: `let x = 1; x + (let x = 5; x)` ↦ `1 + (let x = 5; x)` -/
+example : leafLit (.num 1) = some (.num 1) ∧ "x" ≠ "_" ∧
+    substA "x" (.num 1) (.bin .add (.ident "x") (.let_ (.ident "x") (.num 5) (.ident "x"))) =
+      .bin .add (.num 1) (.let_ (.ident "x") (.num 5) (.ident "x")) ∧
+    isUnderscoreA (substA "x" (.num 1) (.bin .add (.ident "x") (.let_ (.ident "x") (.num 5) (.ident "x")))) = false := by
+  decide
+
 /-! ### cond / && / || evaluate only the branches they select -/
 
 /-- `a && b` with `a` false: `b` is not evaluated -/
@@ -231,6 +238,10 @@ theorem short_circuit {g : Ast} {v : V} (hg : leafLit g = some v) (b b' x r r' :
    fun h => rewrite_inert (AR.orDead b b' hg h) n m,
    fun h => rewrite_inert (AR.cond (AR.condDead "" "" b b' hg h (AR.refl r).2.2.1)) n m,
    fun h => rewrite_inert (AR.cond (AR.condTaken "" "" r r' hg h (rewrite_refl x))) n m⟩
+
+/-- the hypotheses of `short_circuit` are satisfiable (`false && …`, `1 || …`) -/
+example : leafLit .ff = some V.none ∧ Impl.isTrue (Val.data V.none) = false ∧
+    leafLit (.num 1) = some (.num 1) ∧ Impl.isTrue (Val.data (.num 1)) = true := by decide
 
 /-! ### lexical scope -/
 
